@@ -444,7 +444,9 @@ class Poly(meta(metaclass=PolyMeta)):
                                1 if v == 1 else v ** other) # Avoid casting
                               for k, v in iteritems(self._data)),
                   zero=self.zero)
-    return reduce(operator.mul, [self.copy()] * (other - 1) + [self])
+    # One copy for each factor: coefficients might be Stream instances
+    return reduce(operator.mul, [self.copy() for unused in
+                                 [None] * (other - 1)] + [self])
 
   def __truediv__(self, other):
     if isinstance(other, Poly):
